@@ -333,15 +333,6 @@ same wrapper of their own element conversion. -/
 def convWrap (inner : Value → Res Value) (v : Value) : Res Value :=
   if v.isMarked then (inner v.unmark).map (·.withMarks v.marks) else inner v
 
-/-! ### HasElement as /repo has it since commit 6a768b3
-
-The needle is unmarked DEEPLY and all of its marks go to the result.
-(`Ops2.hasElement` still has the previous prologue; this copy is what it becomes.) -/
-def hasElementC (v elem : Value) (elemHash : Option Int) : Res Value :=
-  if v.isMarked || elem.containsMarked then
-    (hasElementU v.unmark elem.unmarkDeep elemHash).map (·.withMarks (unionMarks v.marks elem.marksDeep))
-  else hasElementU v elem elemHash
-
 end Value
 
 /-! ### the operation methods of `cty.Value` that C04 quantifies over -/
@@ -379,7 +370,7 @@ def run : Op → List Value → Res Value
   | .hasIndex, [a, b] => Value.hasIndex a b
   | .length, [a] => Value.length a
   | .getAttr n, [a] => Value.getAttr a n
-  | .hasElement h, [a, b] => Value.hasElementC a b h
+  | .hasElement h, [a, b] => Value.hasElement a b h
   | _, _ => .unmodelled
 
 /-- The marks of operand number `i` that the method promises to keep on its
